@@ -745,6 +745,7 @@ func init() {
 		for k, cl := range invs {
 			g := x.evalClause(sInit, cl, evalCtx{extra: extra(n, n)})
 			x.emit(sInit, "search", fmt.Sprintf("search%d.inv%d.init", ord, k), cl.Labels, g, cl.Text)
+			sInit.assumeG(cl.Group, g) // established: available to the clauses that follow (they are checked in order)
 		}
 		sMono := s.clone()
 		for _, cl := range invs {
